@@ -23,7 +23,9 @@ func init() {
 			{"C15/mode-agreement", "encrypt-only chain only without a signing key, nested chain only with one; same predicate and algorithms as the mint side", c15ModeAgreement},
 			{"C15/mint", "GenerateUserToken: always encrypted (never jwt.Signed alone), keys/algorithms/issuer as verified, lifetime <= 5 min, key length guard", c15Mint},
 			{"C15/alg-lists", "every jose/jwt Parse* call in first-party code has exactly the frozen constant allow-lists; no unverified-claims API", func(c *Ctx) { algInventory(c, "C15/alg-lists"); c.Floor("C15/alg-lists", 4, "4 parse sites") }},
+			{"C15/config-keys", "config.Load passes the configured user-token keys on unchanged (the encryption key may only be replaced by a fresh random one)", c15ConfigKeys},
 			{"C15/http", "TokenInfo: claims written only over err == nil; 405 / 400 / 403 on the refusing branches; nothing derived from the claims on error paths", c15HTTP},
+			{"C15/key-wiring", "main copies the configured user-token keys into the variables the verifier reads", func(c *Ctx) { keyWiring(c, "C15/key-wiring", "UserEncryptionKey", "UserSigningKey") }},
 		},
 	})
 }
@@ -489,4 +491,44 @@ func shortCallee(ci ssa.CallInstruction) string {
 		n = n[i+1:]
 	}
 	return n
+}
+
+// c15ConfigKeys: which key mode the verifier runs in is decided by len(UserSigningKey); Load must
+// not rewrite the configured signing key (clearing a mis-sized key silently selects encrypt-only
+// mode, in which tokens not signed under the configured key verify).
+func c15ConfigKeys(c *Ctx) {
+	rule := "C15/config-keys"
+	load := c.Fn("cmd/rdpgw/config", "Load")
+	n := 0
+	for _, f := range scopeFuncs(load, 2) {
+		f := f
+		eachInstr(f, func(in ssa.Instruction) {
+			s, ok := in.(*ssa.Store)
+			if !ok {
+				return
+			}
+			p, ok := confAddrPath(s.Addr, "Conf")
+			if !ok {
+				return
+			}
+			switch p {
+			case "Security.UserTokenSigningKey":
+				n++
+				c.Bad(rule, "store "+p+" in "+shortFn(f), s.Pos(), "config.Load rewrites the configured user-token signing key: the verifier's key mode no longer follows the configuration (an emptied key means encrypt-only tokens verify)")
+			case "Security.UserTokenEncryptionKey":
+				ex, isEx := strip(s.Val).(*ssa.Extract)
+				fresh := false
+				if isEx {
+					if call, ok := ex.Tuple.(*ssa.Call); ok && calleeName(call) == secPkgPath+".GenerateRandomString" {
+						fresh = true
+					}
+				}
+				n++
+				c.Check(fresh, rule, "store "+p+" in "+shortFn(f), s.Pos(), "replaced only by a fresh random key", "config.Load overwrites the user-token encryption key with something other than a fresh random key")
+			}
+		})
+	}
+	if n == 0 {
+		c.OK(rule, "config.Load user-token keys", load.Pos(), "no store to the user-token keys in Load")
+	}
 }
